@@ -958,16 +958,6 @@ push_file(const CPPFile &file) {
   }
   assert(_last_c == 0);
 
-  // A file that includes itself normally stops when the nesting runs out of
-  // file descriptors, but if the #include is the very last thing in the file
-  // (no newline), the file has already been closed when we get here, and it
-  // would go on forever.
-  static const int max_include_count = 10000;
-  if (++_include_counts[file] > max_include_count) {
-    error("#include nested too deeply: " + file._filename.get_fullpath());
-    return false;
-  }
-
   InputFile *infile = new InputFile;
   if (infile->open(file)) {
     infile->_parent = _infile;
@@ -1987,6 +1977,20 @@ handle_include_directive(const string &args, const YYLTYPE &loc) {
     ParsedFiles::const_iterator it = _parsed_files.find(file);
     if (it != _parsed_files.end() && it->_pragma_once) {
       return;
+    }
+
+    // Normally the including file is still open here, so that a file that
+    // keeps including itself stops when the nesting runs out of file
+    // descriptors.  But if the #include is the very last thing in a file (no
+    // newline), that file has already been closed, the nesting never grows,
+    // and a file that ends by including itself would go on forever.  Count
+    // only these includes-after-the-end, per included file.
+    if (_infile == nullptr || !(_infile->_file == loc.file)) {
+      static const int max_tail_include_count = 200;
+      if (++_include_counts[file] > max_tail_include_count) {
+        error("#include nested too deeply: " + filename.get_fullpath(), loc);
+        return;
+      }
     }
 
     if (!push_file(file)) {
